@@ -272,7 +272,7 @@ func (g *gen) intExpr(k Kind, depth int) Expr {
 		n := 2 + g.intn(3, "dotn")
 		g.class("builtin:dot:int")
 		b := &Builtin{Name: "dot", Args: []Expr{g.expr(Vec(n, k), depth-1), g.expr(Vec(n, k), depth-1)}, T: t}
-		if g.f.off("dot.int.bool-splat-convert") {
+		if g.inConst == 0 && len(g.inputs) > 0 && g.f.off("dot.int.bool-splat-convert") {
 			// (known finding C05-18: vecN<i32>(bool-vector let) inside an integer dot)
 			for i, a := range b.Args {
 				bad := false
@@ -337,6 +337,12 @@ func (g *gen) convToInt(k Kind, depth int) Expr {
 		b := &Builtin{Name: "bitcast", Tmpl: t, Args: []Expr{g.expr(Scalar(src), depth-1)}, T: t}
 		return g.guardConst(b, func() { b.Args[0] = g.runtimeOf(Scalar(src)) })
 	}
+	if src == F32 && g.hostileF != nil && g.chance(60, "hostf") {
+		// C15: convert a hostile float (infinite / out of range) loaded straight from a buffer
+		g.class("convert:hostile-f32->" + k.String())
+		n := g.hostileF.T.N
+		return &Construct{T: t, Args: []Expr{&Index{X: &VarRef{g.hostileF}, I: &Lit{T: TU32, Bits: uint32(g.intn(n, "hostfi"))}, T: TF32}}}
+	}
 	g.class("convert:" + src.String() + "->" + k.String())
 	c := &Construct{T: t, Args: []Expr{g.expr(Scalar(src), depth-1)}}
 	return g.guardConst(c, func() { c.Args[0] = g.runtimeOf(Scalar(src)) })
@@ -385,7 +391,7 @@ func (g *gen) boolExpr(depth int) Expr {
 		op := cmpOps[g.intn(6, "cmp")]
 		g.class("cmp" + op + ":" + k.String())
 		b := &Binary{Op: op, L: g.expr(Scalar(k), depth-1), R: g.expr(Scalar(k), depth-1), T: TBool}
-		if !IsConstExpr(b) && foldable(b) && g.f.off("const-fold.compare-let") {
+		if !IsConstExpr(b) && foldable(b) && g.inConst == 0 && len(g.inputs) > 0 && g.f.off("const-fold.compare-let") {
 			// (known finding C05-17: folded through a let, the result is typed as the operands)
 			b.R = g.runtimeOf(Scalar(k))
 		}
@@ -394,7 +400,7 @@ func (g *gen) boolExpr(depth int) Expr {
 		op := []string{"&&", "||", "&", "|", "==", "!="}[g.intn(6, "lop")]
 		g.class("logic" + op)
 		lb := &Binary{Op: op, L: g.expr(TBool, depth-1), R: g.expr(TBool, depth-1), T: TBool}
-		if (op == "&&" || op == "||") && foldable(lb) && g.f.off("const-fold.logical-named-const") {
+		if foldable(lb) && g.f.off("const-fold.logical-named-const") {
 			// (known finding C05-19: && / || of constants that include a named const fold to false)
 			named := false
 			WalkExpr(lb, func(x Expr) bool {
@@ -686,7 +692,17 @@ func (g *gen) vecExpr(t *Type, depth int) Expr {
 		}
 		if src != Bool && src != F32 && g.chance(40, "vbitc") {
 			g.class("bitcast:vec")
-			return &Builtin{Name: "bitcast", Tmpl: t, Args: []Expr{g.expr(Vec(t.N, src), depth-1)}, T: t}
+			vb := &Builtin{Name: "bitcast", Tmpl: t, Args: []Expr{g.expr(Vec(t.N, src), depth-1)}, T: t}
+			// Known finding (tag const.index.composite): a vector bitcast of a constant is not folded, but a
+			// component access of a constructor holding it is folded over the flat argument list
+			// (vec3(bitcast<vec2<i32>>(vec2<u32>(3u, 4u)), 7i).y gives 7); keep the operand run-time.
+			if foldable(vb.Args[0]) && g.f.off("const.index.composite") {
+				if g.inConst > 0 || len(g.inputs) == 0 {
+					return &Construct{T: t, Args: []Expr{vb.Args[0]}} // const context: convert instead
+				}
+				vb.Args[0] = g.runtimeOf(Vec(t.N, src))
+			}
+			return vb
 		}
 		g.class("convert:vec:" + src.String() + "->" + k.String())
 		c := &Construct{T: t, Args: []Expr{g.expr(Vec(t.N, src), depth-1)}}
